@@ -167,6 +167,10 @@ type World struct {
 	// (simrand, simrand2, simcrand).  It is not the choice source: what the
 	// code under test draws must not shift the schedule and fault choices.
 	randState uint64
+	// Quiesce state (see Quiesce)
+	inQuiesce  bool
+	horizon    time.Duration
+	Livelocked bool
 }
 
 // NextRand returns the next value of the world's pseudo-random generator
@@ -639,6 +643,17 @@ func (w *World) Actors() []Actor { return w.actors }
 // Tasks returns all tasks ever spawned.
 func (w *World) Tasks() []*Task { return w.tasks }
 
+// LiveTasks returns the tasks that have neither finished nor been killed.
+func (w *World) LiveTasks() []*Task {
+	var out []*Task
+	for _, t := range w.tasks {
+		if t.Alive() {
+			out = append(out, t)
+		}
+	}
+	return out
+}
+
 // LiveTasks returns the tasks of p that have not finished.
 func (p *Proc) LiveTasks() []*Task {
 	var out []*Task
@@ -663,8 +678,25 @@ func (w *World) Run(stop func() bool) bool {
 	}
 }
 
-// Quiesce runs until nothing is enabled.
-func (w *World) Quiesce() { w.Run(nil) }
+// QuiesceHorizon is how much simulated time one Quiesce lets pass: timers due
+// within the horizon fire (a debounce, a back-off, a few periods of a
+// rescan ticker), later ones stay pending, so that a periodic timer does not
+// keep the world from coming to rest.
+const QuiesceHorizon = 60 * time.Second
+
+// Quiesce runs until nothing is enabled (timers: see QuiesceHorizon).  If the
+// step budget runs out here - the workload is over, only goroutines of the
+// code under test and the kernel actors are left - the world is marked
+// Livelocked.
+func (w *World) Quiesce() {
+	w.horizon = w.now + QuiesceHorizon
+	w.inQuiesce = true
+	w.Run(nil)
+	w.inQuiesce = false
+	if w.Overrun {
+		w.Livelocked = true
+	}
+}
 
 // Do runs fn as a new task of p and steps the world (all tasks and actors
 // interleave) until that task has finished.  ok is false if the task could
